@@ -344,6 +344,38 @@ def check_sum_waveform(acc, sc):
                      f"peak {i} t={int(b['time'])} len={int(b['length'])}: got area {p['area']} len {p['length']} "
                      f"dt {p['dt']} data {p['data'][:n2 + 1].tolist()} want area {area} len {n2} dt {dt2} data {data.tolist()}")
             return True
+    # ---- peak windows that do NOT come from find_peaks (as after splitting, or with a small max_duration): sorted
+    # disjoint windows that may start and end in the middle of hits
+    import random as _random
+
+    rng = _random.Random(common.chash(sc))
+    dt = sc["dt"]
+    lo = int(hits["time"].min()) - 2 * dt
+    hi = int((hits["time"] + hits["length"] * hits["dt"]).max()) + 2 * dt
+    pts = sorted(set(rng.sample(range(lo, hi + dt, dt), min(rng.randint(2, 6), (hi - lo) // dt + 1))))
+    wins = [(a, b) for a, b in zip(pts[:-1], pts[1:]) if rng.random() < 0.8]
+    if wins:
+        p2 = np.zeros(len(wins), dtype=pdtype(ns))
+        p2["time"] = [a for a, b in wins]
+        p2["length"] = [(b - a) // dt for a, b in wins]
+        p2["dt"] = dt
+        p2["channel"] = -1
+        try:
+            strax.sum_waveform(p2, hits, recs, rl, TO_PE, n_top_channels=n_top, store_data_top=n_top > 0, store_data_start=False)
+            acc.count("sum_waveform_free_windows")
+        except Exception as e:
+            acc.viol("sum_waveform", "exception", dict(sc, windows=wins), repr(e), e)
+            return True
+        for i, (a, b) in enumerate(wins):
+            area, apc, data, dtop, n2, dt2, full = ref_sum_waveform(a, (b - a) // dt, dt, hits, recs, ns, n_top)
+            p = p2[i]
+            acc.count("peaks_compared")
+            if not (close(p["area"], area) and allclose(p["area_per_channel"], apc) and int(p["length"]) == n2
+                    and int(p["dt"]) == dt2 and allclose(p["data"][:n2], data)):
+                acc.viol("sum_waveform", "mismatch", dict(sc, windows=wins),
+                         f"free window [{a},{b}): got area {p['area']} apc {p['area_per_channel'].tolist()} data "
+                         f"{p['data'][:n2 + 1].tolist()} want area {area} apc {apc.tolist()} data {data.tolist()}")
+                return True
     return True
 
 
@@ -589,6 +621,18 @@ def check_split(acc, sc):
         if bad:
             acc.viol("split_peaks", "tiling", dict(sc), f"parent [{a},{b}): {bad}; children {kids}", algo=algo)
             return True
+    # every child is re-summed from the records: its area is the integral of the waveform over ITS time span
+    if len(out) > len(peaks):
+        for o in out:
+            a, ln, d = int(o["time"]), int(o["length"]), int(o["dt"])
+            if d != sc["dt"]:
+                continue  # down-sampled child: its stored span may be shorter than what was summed (documented truncation)
+            area = ref_sum_waveform(a, (ln * d) // sc["dt"], sc["dt"], hits, recs, 10 ** 6, 0)[0]
+            acc.count("split_child_areas")
+            if not close(o["area"], area, 1e-3):
+                acc.viol("split_peaks", "area", dict(sc), f"child [{a},{a + ln * d}) has area {o['area']}, the waveform "
+                                                            f"over that span integrates to {area}", algo=algo)
+                return True
     return True
 
 
